@@ -610,6 +610,11 @@ def unexpected_refusals(fn, known_blocks=(), allow=None):
     return out
 
 
+def _mentions_deep(F, t, needle):
+    from terms import mentions_deep
+    return mentions_deep(F, t, needle)
+
+
 def clause_index_scan_bounds(R, F, only_methods=None):
     """every range scan of the (block, index) -> hash table runs over [key(a, 0), key(b + 1, 0)) built by the one key helper:
     whole blocks, inclusive of block b, nothing of block b + 1"""
@@ -818,7 +823,7 @@ def clause_next_height_siblings(R, F):
                 for a in l.terms:
                     for c in calls_in(a):
                         m = c[1].split("::")[-1]
-                        if m in ("unwrap_or", "map_or") and mentions(c, "last_key"):
+                        if m in ("unwrap_or", "map_or") and (mentions(c, "last_key") or _mentions_deep(F, c, "last_key")):
                             d = lin(c[2][1])
                             empty_value = d.k + (l.k if m == "unwrap_or" else 0)
                             found += 1
